@@ -262,10 +262,26 @@ def simple_return(fn):
 # comparisons, local definitions
 # ---------------------------------------------------------------------------
 
+def fn_memo(fn, key, compute):
+    """memo attached to the FunctionDef node itself (never keyed by id()); a shallow copy of the node shares __dict__ entries but not
+    necessarily the body, so the body object is part of the validity test"""
+    m = fn.__dict__.get('_sa_memo')
+    if m is None or m[0] is not fn.body:
+        m = (fn.body, {})
+        fn.__dict__['_sa_memo'] = m
+    if key not in m[1]:
+        m[1][key] = compute()
+    return m[1][key]
+
+
 def single_defs(fn):
     """locals of `fn` with exactly one plain definition -> defining expression.
     Tuple unpacking `a, b = X` yields a -> X[0], b -> X[1].  Loop targets and augmented
     assignments disqualify a name."""
+    return dict(fn_memo(fn, 'single_defs', lambda: _single_defs(fn)))
+
+
+def _single_defs(fn):
     defs, bad = {}, set()
 
     def add(name, expr):
